@@ -19,4 +19,15 @@ ev C17 8 zz_demo_test.go . -- C17 C12
 ev C01 8 internal/transport/zz_demo_test.go ./internal/transport -- C01 C17
 ev C17 7 internal/transport/zz_demo_test.go ./internal/transport -- C17 C15
 }
+lane3() {
+ev C01 7 internal/rsm/zz_demo_test.go ./internal/rsm -- C01
+ev C08 8 internal/rsm/zz_demo_test.go ./internal/rsm -- C01
+ev C16 7 internal/rsm/zz_demo_test.go ./internal/rsm -- C08 C11
+ev C01 8 internal/transport/zz_demo_test.go ./internal/transport -- C01
+}
+lane4() {
+ev C11 7 zz_demo_test.go . -- C11
+ev C12 8 zz_demo_test.go . -- C12
+ev C16 8 zz_demo_test.go . -- C16
+}
 "$@"
